@@ -6,7 +6,8 @@ import common as C
 import gen as G
 
 PROP = 'C16'
-THEOREMS = []
+THEOREMS = ['number_roundtrip', 'roundtrip_thm', 'cols_order', 'cols_count', 'nrows_prefix', 'limits_pieces',
+            'limits_reject', 'micro_dtype', 'micro_rejects_float', 'micro_labels_unchanged']
 CONFIGS = [dict(jit=True)]
 RULE = ('real files in a scratch directory: random integer tables (1..200 rows, 1..6 columns, negatives, '
         'values beyond 16 bit), header strings (None, single/multi-line, containing #, tabs, CR), formats '
